@@ -147,6 +147,20 @@ fn main() {
             let out = arg(&args, "--out").expect("--out");
             std::fs::write(out, serde_json::to_string_pretty(&info).unwrap()).expect("write report");
         }
+        "pairsweep" => {
+            if let Some(p) = arg(&args, "--progress") {
+                let f = std::fs::File::create(p).expect("progress file");
+                PROGRESS.with(|x| *x.borrow_mut() = Some(f));
+            }
+            let adv = arg(&args, "--adv").unwrap_or("0") == "1";
+            let leaves: usize = arg(&args, "--max-leaves").map(|s| s.parse().unwrap()).unwrap_or(128);
+            let mut rep = replay::Report::default();
+            let (cases, runs, maxcb) = pair::run_pairs_sweep(arg(&args, "--table").expect("--table"), adv, leaves, &mut rep);
+            let mut j = rep.to_json();
+            j["sweep"] = serde_json::json!({"cases": cases, "runs": runs, "max_callbacks": maxcb, "truncated": 0, "callback_kinds": {}, "failing_sites": {}});
+            let out = arg(&args, "--out").expect("--out");
+            std::fs::write(out, serde_json::to_string_pretty(&j).unwrap()).expect("write report");
+        }
         "pairs" => {
             let set_mode = arg(&args, "--mode").unwrap_or("set") == "set";
             if let Some(p) = arg(&args, "--progress") {
